@@ -11,7 +11,7 @@ META = {
              'the physical file, so foreign content is recognisable; signature = (#frames, #logical files, set-name assignment '
              'class, interleaved?); non-trivial when there are >= 2 frames or >= 2 logical files'),
     'required_obs': {'quick': ['multi-lf-written', 'multi-frame-written', 'frames-different-rows', 'interleaved',
-                               'shared-set-names-tried', 'partially-shared-tried', 'shared-after-rejected-add', 'lf-order-checked', 'rows-compared', 'runs-with-equal-channel-names', 'no-format-data-in-multi-lf',
+                               'shared-set-names-tried', 'partially-shared-tried', 'shared-after-rejected-add', 'lf-order-checked', 'rows-compared', 'runs-with-equal-channel-names', 'no-format-data-in-multi-lf', 'frames-source-struct', 'frames-source-dict', 'frames-source-hdf5', 'data-dict-for-one-logical-file',
                                'object-compared']},
     'assumptions': ['a configuration whose set names collide across logical files may be rejected at add_* or at write time'],
 }
@@ -150,8 +150,12 @@ def run_case(case):
         sp['ops'].append(gen.origin_op())
         rows = []
         tag = 0
+        # the data of ALL frames come from one source object (one dict / one HDF5 file / one structured array, whose fields
+        # all have the same number of rows): each frame must pick its own columns
+        source = r.choice(['inline', 'inline', 'dict', 'hdf5', 'struct', 'struct'])
+        n_all = r.choice([1, 2, 5, 9, 13])
         for f in range(nfr):
-            n = r.choice([1, 2, 5, 9, 13])
+            n = n_all if source == 'struct' else r.choice([1, 2, 5, 9, 13])
             rows.append(n)
             idx = []
             for c in range(r.choice([1, 2, 3])):
@@ -161,7 +165,10 @@ def run_case(case):
                                                 fill={'kind': 'pos', 'tag': tag * 17}))
                 idx.append(len(sp['ops']) - 1)
             sp['ops'].append(gen.frame_op(f'FRAME{f}', idx, **({'index_type': 'BOREHOLE-DEPTH'} if r.random() < 0.3 and len(sp['ops'][idx[0]]['data']['shape']) == 1 else {})))
-        sp['write'] = {'output_chunk_size': 2 ** 16, 'input_chunk_size': r.choice([None, 1, 2, 4])}
+        sp['write'] = {'output_chunk_size': 2 ** 16, 'input_chunk_size': r.choice([None, 1, 2, 4]), 'source': source}
+        if source == 'struct':
+            sp['write'].update({'extra': r.choice([0, 0, 1]), 'struct_variant': r.choice([None, None, 'aligned', 'view'])})
+        bump('frames-source-' + source)
         nlf = 1
         if len(set(rows)) > 1:
             bump('frames-different-rows')
